@@ -223,7 +223,15 @@ def check_continuum(case, rec):
     simu.solver = SolverType(solver)
     with warnings.catch_warnings(record=True) as wlist:
         warnings.simplefilter("always")
-        u = np.asarray(simu.Solve(), float).ravel()
+        try:
+            u = np.asarray(simu.Solve(), float).ravel()
+        except Exception as e:
+            if solver != "scipy" and "did not converge" in str(e):
+                # the iterative back-end reports that it reached its iteration cap (finding F19: it used to return the
+                # unconverged vector silently): no solution was returned, the property decides nothing
+                rec.label("iterative_backend_reports_non_convergence:" + solver)
+                raise Inconclusive(f"{solver} reported non-convergence")
+            raise
     sing = [w for w in wlist if "singular" in str(w.message).lower() or "MatrixRank" in type(w.message).__name__]
     rec.require(not sing, "singular_warning", f"{types}: the solve raised a singular-matrix warning "
                 f"(orphans={case['recipe']['orphans']}): {sing[0].message if sing else ''}", **sig)
@@ -540,8 +548,18 @@ def check_lsq(case, rec):
     # back-end stops on the relative change of the cost (tol=1e-10), so it is held to the cost, not to the gradient.
     from scipy.optimize import lsq_linear
 
-    ref = lsq_linear(A, b, bounds=(lb, ub), method="bvls", tol=1e-14)
+    ref = lsq_linear(A, b, bounds=(lb, ub), method="bvls", tol=1e-14, max_iter=200 * A.shape[1])
     d_ref = ref.x
+    # the reference must itself be an optimum: converged, and satisfying the KKT conditions of the bounded problem (gradient
+    # zero inside, pointing outwards at active bounds); otherwise it decides nothing (observed: BVLS stopping at its
+    # iteration cap with a cost above the one of the back-end under test)
+    g_ref = A.T @ (A @ d_ref - b)
+    gs = float(np.abs(A.T).sum(axis=1).max() * (np.abs(A) @ np.ones_like(d_ref) + np.abs(b)).max()) + 1e-300
+    in_ref = (d_ref > lb + 1e-10) & (d_ref < ub - 1e-10)
+    kkt = (np.all(np.abs(g_ref[in_ref]) <= 1e-9 * gs) and np.all(g_ref[d_ref <= lb + 1e-10] >= -1e-9 * gs)
+           and np.all(g_ref[d_ref >= ub - 1e-10] <= 1e-9 * gs))
+    if ref.status <= 0 or not kkt:
+        raise Inconclusive("the reference bounded least-squares solve did not reach an optimum")
     cost = 0.5 * float(np.sum((A @ d - b) ** 2))
     cost_ref = 0.5 * float(np.sum((A @ d_ref - b) ** 2))
     cscale = 0.5 * float(np.sum(b**2)) + 0.5 * float(np.sum((np.abs(A) @ np.ones_like(d)) ** 2)) + 1e-300
